@@ -300,3 +300,239 @@ def decide_tla(pid, tier, sd):
 
 
 DECIDERS["tla"] = decide_tla
+
+
+# ------------------------------------------------------------------------------------------------------- C18
+def build_tdriver():
+    with Lock("coq-build"):
+        ext = os.path.join(COQ, "extraction")
+        key = "tdriver-" + file_hash([os.path.join(COQ, "theories", "Timer", "TimerModel.v"), os.path.join(ext, "ExtractTimer.v"), os.path.join(ext, "tdriver.ml")])
+        out = os.path.join(WORK, "bin", key)
+        if os.path.exists(out):
+            return {"ok": True, "bin": out, "log": ""}
+        os.makedirs(os.path.dirname(out), exist_ok=True)
+        p = sh("coqc -Q theories DbftV extraction/ExtractTimer.v > /dev/null && mv tmodel.ml tmodel.mli extraction/ && cd extraction && "
+               "ocamlfind ocamlopt -O3 -w -a tmodel.mli tmodel.ml tdriver.ml -o %s" % out, cwd=COQ, check=False)
+        return {"ok": p.returncode == 0 and os.path.exists(out), "bin": out, "log": p.stdout[-3000:]}
+
+
+def decide_timer(pid, tier, sd):
+    ps = props.proof_status(pid)
+    ev = props.base_evidence(pid, tier, sd, ps)
+    h = build_harness()
+    if not h["ok"]:
+        return _fail_build(pid, ev, "harness does not build against /repo", h["log"])
+    d = build_tdriver()
+    if not d["ok"]:
+        return _fail_build(pid, ev, "extracted timer driver does not build", d["log"])
+    nseq = 96 if tier == "quick" else 1500
+    key = "timer-%s-%d-%s-%s" % (tier, sd, file_hash(tree_files(os.path.join(REPO, "timer"), (".go",))), verif_hash())
+
+    def go():
+        out = os.path.join(WORK, "timer-%s.txt" % key)
+        with open(out, "w") as f:
+            hp = subprocess.run([h["bin"], "timer", str(sd), str(nseq)], stdout=f, stderr=subprocess.PIPE, text=True, timeout=1500)
+        dr = sh([d["bin"], out], check=False)
+        # the property's own predicate on what the real timer did (independent of the model)
+        hits, samples, seq, kinds = [], [], -1, {}
+        a0 = dtot = None
+        hv = None
+        with open(out) as f:
+            for line in f:
+                t = line.split()
+                if not t:
+                    continue
+                kinds[t[0]] = kinds.get(t[0], 0) + 1
+                if t[0] == "SEQ":
+                    seq, a0, dtot, hv = int(t[1]), None, None, None
+                    cur = []
+                    if len(samples) < 3:
+                        samples.append(cur)
+                elif t[0] == "RESET":
+                    a0, dtot, hv = int(t[1]), int(t[5]), (t[3], t[4])
+                elif t[0] == "EXTEND" and a0 is not None:
+                    dtot += int(t[3])
+                elif t[0] == "READ" and t[3] == "1":
+                    if a0 is None:
+                        hits.append({"sig": "expiry-without-reset", "desc": "sequence %d: an expiry was delivered although the timer was never reset" % seq})
+                    else:
+                        if int(t[2]) < a0 + dtot:
+                            hits.append({"sig": "early-expiry", "desc": "sequence %d: expiry delivered at %d ns, reset at >= %d ns with duration+extensions %d ns (%.1f ms early)" % (seq, int(t[2]), a0, dtot, (a0 + dtot - int(t[2])) / 1e6)})
+                        if (t[4], t[5]) != hv:
+                            hits.append({"sig": "wrong-epoch", "desc": "sequence %d: Height/View %s/%s after the latest Reset(%s,%s)" % (seq, t[4], t[5], hv[0], hv[1])})
+                if t[0] != "SEQ" and len(samples) <= 3 and samples and len(samples[-1]) < 12 and seq < 3:
+                    samples[-1].append(line.strip())
+        os.remove(out)
+        m = re.search(r"TSUMMARY seqs (\d+) ops (\d+) reads (\d+) values (\d+) disagreements (\d+)", dr.stdout)
+        tdiff = [l for l in dr.stdout.split("\n") if l.startswith("TDIFF")]
+        return {"harness_rc": hp.returncode, "driver_rc": dr.returncode, "summary": [int(x) for x in m.groups()] if m else None,
+                "tdiff": tdiff[:30], "hits": hits[:30], "samples": samples, "kinds": kinds}
+    r = cached(key, go)
+    # lateness is a runtime clause: a LATE diff is reported as a violation only if it reproduces in a second, smaller run
+    late = [x for x in r["tdiff"] if "kind=LATE" in x]
+    hard = [x for x in r["tdiff"] if "kind=LATE" not in x]
+    for x in hard:
+        kind = re.search(r"kind=(\w+)", x).group(1)
+        r["hits"].append({"sig": {"EARLY": "early-expiry", "EPOCH": "wrong-epoch"}.get(kind, kind), "desc": "model replay: " + x})
+    known_sigs, known_hits, new_hits = props.classify_hits(pid, [dict(x, prop=pid) for x in r["hits"]])
+    summ = r["summary"] or [0, 0, 0, 0, 0]
+    cov = ev["coverage"]
+    cov.update({"evaluations": summ[1], "distinct_nontrivial": summ[3] + len(r["kinds"]),
+                "rule": "one evaluation = one Reset/Extend/non-blocking receive on C() performed on the real timer.Timer (durations 0..60 ms, sleeps up to 150 ms, %d sequences, 16 concurrently) and replayed through the extracted model with the measured monotonic instants; non-trivial = a delivered expiry (each compared with the earliest-deadline model and with the property's own arithmetic)" % nseq,
+                "samples": r["samples"][:2], "disagreements_checked": len(r["tdiff"]), "late_beyond_tolerance": len(late), "op_kinds": r["kinds"],
+                "cache_reused": r.get("_cache_reused", False),
+                "explanation": "proved on the timer model over an abstract runtime (Go time.Timer/channel semantics as stated in TimerModel.v): never early, latest epoch, no stale expiry, availability at the deadline; the real timer is driven through seeded sequences and compared with the model. Delivery 'within scheduling tolerance' is a runtime clause: exercised with an 80 ms tolerance, not proved."})
+    lines, violation = [], False
+    broken_tie = r["summary"] is None or r["harness_rc"] != 0 or r["driver_rc"] != 0
+    if new_hits:
+        path = write_replay(pid, "mon-%d" % sd, {"property": pid, "kind": "monitor", "signature": new_hits[0]["sig"], "what": new_hits[0]["desc"], "history_cmd": "verifh timer %d %d" % (sd, nseq), "hits": new_hits[:10]})
+        lines.append("VIOLATION property=%s replay=%s" % (pid, path))
+        violation = True
+    elif len(late) > 3:
+        path = write_replay(pid, "late-%d" % sd, {"property": pid, "kind": "monitor", "signature": "late-expiry", "what": late[0], "history_cmd": "verifh timer %d %d" % (sd, nseq), "hits": late[:10]})
+        lines.append("VIOLATION property=%s replay=%s" % (pid, path))
+        violation = True
+    elif not ps["ok"] or broken_tie:
+        path = write_replay(pid, "tie-%d" % sd, {"property": pid, "kind": "no-failing-input-found", "no_longer_checks": {"proofs_ok": ps["ok"], "proof_log": ps["build_log"] or ps["oblig_log"], "forbidden": ps["forbidden"], "summary": r["summary"]}})
+        lines.append("VIOLATION property=%s replay=%s no-failing-input-found" % (pid, path))
+        violation = True
+    return props.finish(pid, ev, lines, violation, known_sigs, known_hits)
+
+
+DECIDERS["timer"] = decide_timer
+
+
+# ------------------------------------------------------------------------------------------------------- C19
+def build_xdriver(name, sources, extract_v, mlfiles):
+    with Lock("coq-build"):
+        ext = os.path.join(COQ, "extraction")
+        key = "%s-%s" % (name, file_hash(sources + [os.path.join(ext, extract_v)] + [os.path.join(ext, m) for m in mlfiles if not m.endswith("model.ml") and not m.endswith("model.mli")]))
+        out = os.path.join(WORK, "bin", key)
+        if os.path.exists(out):
+            return {"ok": True, "bin": out, "log": ""}
+        os.makedirs(os.path.dirname(out), exist_ok=True)
+        gen = [m for m in mlfiles if m.endswith("model.ml") or m.endswith("model.mli")]
+        p = sh("coqc -Q theories DbftV extraction/%s > /dev/null && mv %s extraction/ && cd extraction && ocamlfind ocamlopt -O3 -w -a %s -o %s" % (
+            extract_v, " ".join(gen), " ".join(mlfiles), out), cwd=COQ, check=False)
+        return {"ok": p.returncode == 0 and os.path.exists(out), "bin": out, "log": p.stdout[-3000:]}
+
+
+def decide_ref(pid, tier, sd):
+    ps = props.proof_status(pid)
+    ev = props.base_evidence(pid, tier, sd, ps)
+    h = build_harness()
+    if not h["ok"]:
+        return _fail_build(pid, ev, "harness does not build against /repo", h["log"])
+    d = build_xdriver("rdriver", [os.path.join(COQ, "theories", "Ref", f) for f in ("Sha256.v", "Merkle.v", "RefModel.v")], "ExtractRef.v", ["rmodel.mli", "rmodel.ml", "rdriver.ml"])
+    if not d["ok"]:
+        return _fail_build(pid, ev, "extracted reference-code driver does not build", d["log"])
+    n = 400 if tier == "quick" else 20000
+    key = "ref-%s-%d-%s-%s" % (tier, sd, file_hash(tree_files(os.path.join(REPO, "internal"), (".go",))), verif_hash())
+
+    def go():
+        out = os.path.join(WORK, "ref-%s.txt" % key)
+        with open(out, "w") as f:
+            hp = subprocess.run([h["bin"], "ref", str(sd), str(n)], stdout=f, stderr=subprocess.PIPE, text=True, timeout=1500)
+        dr = sh([d["bin"], out], check=False, timeout=3000)
+        hits, cnt, samples, nh, nm = [], 0, [], 0, 0
+        with open(out) as f:
+            for line in f:
+                if line.startswith("MON C19 "):
+                    p_ = line.rstrip("\n").split(" ", 3)
+                    hits.append({"sig": p_[2], "desc": line.split("|", 1)[1].strip()[:300]})
+                elif line.startswith("MONCNT C19"):
+                    cnt = int(line.split()[2])
+                elif line.startswith("H256"):
+                    nh += 1
+                elif line.startswith("MK"):
+                    nm += 1
+                    if len(samples) < 2:
+                        samples.append(line.strip()[:200])
+        os.remove(out)
+        m = re.search(r"RSUMMARY hashes (\d+) trees (\d+) disagreements (\d+)", dr.stdout)
+        return {"harness_rc": hp.returncode, "harness_err": hp.stderr[-500:], "driver_rc": dr.returncode, "summary": [int(x) for x in m.groups()] if m else None,
+                "rdiff": [l for l in dr.stdout.split("\n") if l.startswith("RDIFF")][:20], "hits": hits, "checks": cnt, "samples": samples, "nh": nh, "nm": nm}
+    r = cached(key, go)
+    known_sigs, known_hits, new_hits = props.classify_hits(pid, [dict(x, prop=pid) for x in r["hits"]])
+    cov = ev["coverage"]
+    cov.update({"evaluations": r["checks"] + r["nh"] + r["nm"], "distinct_nontrivial": r["checks"],
+                "rule": "monitor checks on the real internal/consensus, internal/crypto, internal/merkle code: single-field mutations of payloads of every kind and of blocks, same-object index change, encode/decode round trips (also into a used object), recovery-message packing, %d arbitrary / mutated byte strings into the decoder under recover, sign/verify with wrong key / altered data / altered signature, leaf and order changes of Merkle trees; plus %d Hash256 digests and %d Merkle roots compared with the extracted Coq SHA-256 / Merkle model" % (n, r["nh"], r["nm"]),
+                "samples": r["samples"], "disagreements_checked": len(r["rdiff"]), "cache_reused": r.get("_cache_reused", False),
+                "explanation": "proved: Merkle-tree structure (same-length injectivity under collision freedom; duplicate-last-leaf refuted for every hash function), the Coq SHA-256 on the FIPS vector. Not provable here and only exercised: collision resistance of SHA-256, ECDSA, clean failure of encoding/gob's decoder on arbitrary bytes; the gob byte format is not modelled (the payload-hash clauses are decided by the mutation monitors on the real code)."})
+    lines, violation = [], False
+    broken_tie = r["summary"] is None or r["summary"][2] != 0 or r["harness_rc"] != 0 or r["driver_rc"] != 0
+    if new_hits:
+        path = write_replay(pid, "mon-%d" % sd, {"property": pid, "kind": "monitor", "signature": new_hits[0]["sig"], "what": new_hits[0]["desc"], "history_cmd": "verifh ref %d %d" % (sd, n), "hits": new_hits[:10]})
+        lines.append("VIOLATION property=%s replay=%s" % (pid, path))
+        violation = True
+    elif not ps["ok"] or broken_tie:
+        path = write_replay(pid, "tie-%d" % sd, {"property": pid, "kind": "no-failing-input-found", "no_longer_checks": {"proofs_ok": ps["ok"], "proof_log": ps["build_log"] or ps["oblig_log"], "forbidden": ps["forbidden"], "summary": r["summary"], "diffs": r["rdiff"], "harness_err": r["harness_err"]}})
+        lines.append("VIOLATION property=%s replay=%s no-failing-input-found" % (pid, path))
+        violation = True
+    return props.finish(pid, ev, lines, violation, known_sigs, known_hits)
+
+
+# ------------------------------------------------------------------------------------------------------- C17
+def decide_sim(pid, tier, sd):
+    ps = props.proof_status(pid)
+    ev = props.base_evidence(pid, tier, sd, ps)
+    dur = 12 if tier == "quick" else 40
+    key = "sim-%s-%s-%s" % (tier, repo_hash(), verif_hash())
+
+    def go():
+        binp = os.path.join(WORK, "bin", "simbin-%d" % os.getpid())
+        os.makedirs(os.path.dirname(binp), exist_ok=True)
+        b = sh([GO, "build", "-o", binp, "./internal/simulation"], cwd=REPO, env=GOENV, check=False)
+        if b.returncode != 0:
+            return {"build_ok": False, "log": b.stdout[-2000:]}
+        runs = []
+        with Lock("sim-port-6060"):   # the example serves pprof on localhost:6060: one instance at a time
+            for cfg in (["-count", "4", "-watchers", "1"], ["-count", "1", "-watchers", "0"]) + ((["-count", "7", "-watchers", "2"],) if tier != "quick" else ()):
+                p = sh("timeout %d %s %s -duration %ds 2>&1 | grep -a 'approving block\\|panic\\|bind' | head -2000" % (dur + 20, binp, " ".join(cfg), dur), check=False, timeout=dur + 60)
+                heights = {}
+                hashes = {}
+                for line in p.stdout.split("\n"):
+                    m = re.search(r'"id": (\d+), "height": (\d+), "hash": "([0-9a-f]+)"', line)
+                    if m:
+                        i, hh, hs = int(m.group(1)), int(m.group(2)), m.group(3)
+                        heights[i] = max(heights.get(i, 0), hh)
+                        hashes.setdefault(hh, set()).add(hs)
+                runs.append({"cfg": " ".join(cfg), "duration_s": dur, "heights": heights, "forks": [h_ for h_, v in hashes.items() if len(v) > 1],
+                             "other": [l[:200] for l in p.stdout.split("\n") if "panic" in l or "bind" in l][:3], "lines": len(p.stdout.split("\n"))})
+        os.remove(binp)
+        return {"build_ok": True, "runs": runs}
+    r = cached(key, go)
+    if not r.get("build_ok"):
+        return _fail_build(pid, ev, "internal/simulation does not build", r.get("log", ""))
+    hits = []
+    want = dur // 5 - 1 + 1   # blocks at about 0 s, 5 s, 10 s ...: at least floor(T/5) of them, one spared for start-up
+    for run in r["runs"]:
+        nvals = int(run["cfg"].split()[1])
+        for i in range(nvals):
+            got = run["heights"].get(str(i), run["heights"].get(i, 0))
+            if got < want:
+                hits.append({"sig": "chain-not-extended", "desc": "simulation %s for %d s: validator %d reached height %d, at least %d expected" % (run["cfg"], run["duration_s"], i, got, want)})
+                break
+        if run["forks"]:
+            hits.append({"sig": "different-blocks", "desc": "simulation %s: different blocks approved at heights %s" % (run["cfg"], run["forks"])})
+    known_sigs, known_hits, new_hits = props.classify_hits(pid, [dict(x, prop=pid) for x in hits])
+    cov = ev["coverage"]
+    cov.update({"evaluations": len(r["runs"]), "distinct_nontrivial": sum(len(x["heights"]) for x in r["runs"]),
+                "rule": "one evaluation = one run of the real simulation binary built from /repo (%d s each; 4 validators + 1 watcher, a single validator%s); distinct = nodes whose approved heights were parsed from the log; expected: every validator reaches height >= %d on equal block hashes" % (dur, "" if tier == "quick" else ", 7 validators + 2 watchers", want),
+                "samples": r["runs"], "cache_reused": r.get("_cache_reused", False),
+                "explanation": "proved on the driver-loop model whose shape is regenerated from main.go on every run (Sim/Driver.v): the ledger grows by one per block the library completes and the node is always re-initialised; that the library keeps deciding is C08 (synchronous runs). Goroutine scheduling, channel capacity and real timers are runtime: exercised by running the real binary, not proved."})
+    lines, violation = [], False
+    if new_hits:
+        path = write_replay(pid, "sim", {"property": pid, "kind": "monitor", "signature": new_hits[0]["sig"], "what": new_hits[0]["desc"], "how": "go build ./internal/simulation && ./simulation <cfg> -duration %ds | grep 'approving block'" % dur, "hits": new_hits})
+        lines.append("VIOLATION property=%s replay=%s" % (pid, path))
+        violation = True
+    elif not ps["ok"]:
+        path = write_replay(pid, "tie", {"property": pid, "kind": "no-failing-input-found", "no_longer_checks": {"proofs_ok": ps["ok"], "proof_log": ps["build_log"] or ps["oblig_log"], "theorems": ps["names"], "forbidden": ps["forbidden"]},
+                                         "searched": "ran the real simulation binary: %s" % json.dumps(r["runs"])[:1500]})
+        lines.append("VIOLATION property=%s replay=%s no-failing-input-found" % (pid, path))
+        violation = True
+    return props.finish(pid, ev, lines, violation, known_sigs, known_hits)
+
+
+DECIDERS["ref"] = decide_ref
+DECIDERS["sim"] = decide_sim
